@@ -2049,21 +2049,34 @@ func (t *IntersectionType) Equal(other Type) bool {
 		return false
 	}
 
-	intersectionSet := t.IntersectionSet()
-	otherIntersectionSet := otherType.IntersectionSet()
+	// Compare the sets of the IDs of the types.
+	// The intersection sets cannot be compared directly:
+	// they are keyed by Type, so nominal types, which are pointers, would be compared by identity,
+	// and equal types which are not the same object, e.g. decoded types, would be considered different.
 
-	if len(intersectionSet) != len(otherIntersectionSet) {
+	typeIDs := t.typeIDSet()
+	otherTypeIDs := otherType.typeIDSet()
+
+	if len(typeIDs) != len(otherTypeIDs) {
 		return false
 	}
 
-	for typ := range intersectionSet { //nolint:maprange
-		_, ok := otherIntersectionSet[typ]
+	for typeID := range typeIDs { //nolint:maprange
+		_, ok := otherTypeIDs[typeID]
 		if !ok {
 			return false
 		}
 	}
 
 	return true
+}
+
+func (t *IntersectionType) typeIDSet() map[string]struct{} {
+	typeIDs := make(map[string]struct{}, len(t.Types))
+	for _, typ := range t.Types {
+		typeIDs[typ.ID()] = struct{}{}
+	}
+	return typeIDs
 }
 
 func (t *IntersectionType) IntersectionSet() IntersectionSet {
